@@ -158,6 +158,24 @@ func (e *Engine) VerifyFunctionFor(fn *ssa.Function, safe bool, prop string) (re
 			}
 		}
 	}
+	// block reachability of the top-level function (for relevance filtering of assumptions)
+	nb := len(fn.Blocks)
+	vc.reachMat = make([][]bool, nb)
+	for i := range vc.reachMat {
+		vc.reachMat[i] = make([]bool, nb)
+		stack := []*ssa.BasicBlock{fn.Blocks[i]}
+		for len(stack) > 0 {
+			x := stack[len(stack)-1]
+			stack = stack[:len(stack)-1]
+			for _, s2 := range x.Succs {
+				if !vc.reachMat[i][s2.Index] {
+					vc.reachMat[i][s2.Index] = true
+					stack = append(stack, s2)
+				}
+			}
+		}
+	}
+	vc.curTopBlock = -1
 	fr.oldHeap = heap.clone()
 	fr.run(args, "true", heap)
 	res.Instrs = 20000 - vc.budget
@@ -176,7 +194,13 @@ func (e *Engine) VerifyFunctionFor(fn *ssa.Function, safe bool, prop string) (re
 					continue
 				}
 				name := fmt.Sprintf("%s/post:%s/ret%d", fnName(fn), clauseId(cl, i), ri+1)
+				vc.curTopBlock = r.block
 				o := vc.oblige("post", name, cl.Tags, r.reach, t, fn, r.pos, cl.Src)
+				if r.cut > 0 && r.cut < o.Cut {
+					// assumptions made on later paths cannot matter at this return
+					// (those created while evaluating the clause itself are range facts attached to definitions)
+					o.Cut = r.cut
+				}
 				o.Extra = map[string]string{"contract": fmt.Sprintf("%s:%d", cl.File, cl.Line)}
 				o.Spec = cl
 			}
